@@ -662,6 +662,10 @@ func VerifC12Zero() {
 		verifrt.Assume(b == 0 || q < ip.Size%4096 || w.d.Peek(b)[q] == 0)
 	}
 	var st nfstypes.Nfsstat3
+	preBlks := make([]uint64, 8)
+	for i := 0; i < 8; i++ {
+		preBlks[i] = ip.VerifBlks()[i]
+	}
 	verifrt.Mark(vMarkOpBegin)
 	switch verifrt.Choose("proc", pSETATTR, pWRITE, pREMOVE) {
 	case pSETATTR:
@@ -695,13 +699,22 @@ func VerifC12Zero() {
 		verifrt.Cover("err")
 		return
 	}
-	// (1) freed blocks are zero
+	// (1) blocks the file no longer points to were freed, and freed blocks are zero on the logical disk
 	qq := verifrt.U64("qq")
 	verifrt.Assume(qq < 4096)
+	np := w.quietInodeAt(x)
 	nfreed := 0
+	for i := uint64(0); i < 8; i++ {
+		// a pointer of the pre-state is 0 or the representative block c (bound R_addr)
+		c := vBlockOf(x, i)
+		nb := np.VerifBlks()[i]
+		gone := preBlks[i] == c && (np.Kind == inode.NF3FREE || nb != c)
+		zero := w.d.Peek(c)[qq] == 0
+		verifrt.Assert(!gone || zero, "freed-block-is-zero-on-disk")
+	}
 	for _, ev := range verifrt.Events() {
 		if ev.Kind == verifrt.EvFree && ev.Obj == interface{}(w.nfs.fsstate.Balloc) {
-			verifrt.Assert(w.d.Peek(ev.A)[qq] == 0, "freed-block-is-zero-on-disk")
+			verifrt.Assert(w.d.Peek(ev.A)[qq] == 0, "mon:every-freed-number-is-a-zero-block")
 			nfreed++
 		}
 	}
@@ -709,7 +722,6 @@ func VerifC12Zero() {
 		verifrt.Cover("freed")
 	}
 	// (2) tail of the (new) last block is zero
-	np := w.quietInodeAt(x)
 	if np.Kind != inode.NF3FREE && np.Size%4096 != 0 && np.Size <= 8*4096 {
 		li := verifrt.Split(np.Size/4096, 8)
 		b := np.VerifBlks()[li]
